@@ -42,8 +42,27 @@ def psd_singular_terms():
     return out
 
 
+def _fresh(case, batch):
+    """catalogue terms through the shared recipes; the local "CholFail" term is a dense rank-deficient PSD matrix of scale 1e12, for
+    which the Cholesky factorization fails at every jitter level and the library falls back to the eigendecomposition root"""
+    if case["term"][0] != "CholFail":
+        return R.fresh(case["term"], dtype=DT, batch=batch, seed=env.SEED)
+    import types
+    from linear_operator import operators as O
+    n, r = case["term"][1]["n"], case["term"][1]["r"]
+    g = torch.Generator().manual_seed(4242 + env.SEED)
+    B = torch.randint(-3, 4, (*batch, n, r), generator=g).to(DT)
+    B = B + torch.eye(n, dtype=DT)[:, :r]  # full column rank r
+    A = 1e12 * (B @ B.mT)
+    return types.SimpleNamespace(op=O.DenseLinearOperator(A.clone()), dense=A, pd=False, psd=True), None
+
+
 def cases(tier, seed):
     out = []
+    for n, r in ((3, 2), (4, 2), (3, 1)):
+        for b in ([], [2]):
+            for k in (1, 2):
+                out.append({"name": f"CholFail{n}r{r}", "term": ["CholFail", {"n": n, "r": r}], "batch": b, "k": k, "cfg": {}, "singular": True})
     for name, term in psd_singular_terms():
         for b in ([], [2]):
             for k in (1, 2):
@@ -60,6 +79,12 @@ def cases(tier, seed):
                     if cfg.get("ciq_samples") and not depth1:
                         continue  # (k = 1 matters: singleton dimensions are where squeeze-type slips show)
                     out.append({"name": name, "term": term, "batch": b, "k": k, "cfg": cfg})
+        # the root the sampler finds in the cache was put there by an earlier explicit request for a direct method (this is also
+        # the root the library falls back to when the Cholesky factorization fails): the draws must still have covariance A
+        if depth1:
+            for b in ([], [2]):
+                for prior in ("symeig", "diagonalization", "svd"):
+                    out.append({"name": name, "term": term, "batch": b, "k": 2, "cfg": {}, "prior": prior})
     return out
 
 
@@ -107,15 +132,16 @@ def run(case):
     batch = tuple(case["batch"])
     name, k = case["name"], case["k"]
     cfgs = case["cfg"]
-    key = f"{name}|{batch}|{k}|{sorted(cfgs.items())}"
-    probe = call(R.fresh, case["term"], dtype=DT, batch=batch, seed=env.SEED)
+    prior = case.get("prior")
+    key = f"{name}|{batch}|{k}|{sorted(cfgs.items())}" + (f"|prior={prior}" if prior else "")
+    probe = call(_fresh, case, batch)
     if isinstance(probe, Raised):
         return result(OOD, feat={"name": name}, keys=[key], msg=probe.msg)
     A = probe[0].dense.detach().to(DT)
     n = A.shape[-1]
     opb = tuple(A.shape[:-2])
     nb = max(1, int(torch.Size(opb).numel()))
-    heads = R.heads_of(case["term"])
+    heads = R.heads_of(case["term"]) if case["term"][0] != "CholFail" else {"Dense"}
     feat = {"name": name, "head": case["term"][0], "nb": len(opb), "k": k, "cfg": ",".join(f"{a}={b}" for a, b in sorted(cfgs.items())),
             "cg_forced": cfgs.get("max_cholesky_size") is not None and cfgs["max_cholesky_size"] < n, "ciq": bool(cfgs.get("ciq_samples")), "br": "BatchRepeat" in heads}
     ev = torch.linalg.eigvalsh(A)
@@ -128,17 +154,26 @@ def run(case):
 
     def sample(mode, hot=None, combo=None):
         env.settings_restore()
-        b, _ = R.fresh(case["term"], dtype=DT, batch=batch, seed=env.SEED)
+        b, _ = _fresh(case, batch)
         env.set_settings(dict(cfgs, verbose_linalg=True))
         env.linalg_paths()
         torch.manual_seed(99)
         with warnings.catch_warnings():
             warnings.simplefilter("ignore")
+            if prior:
+                pr = call(b.op.root_decomposition, method=prior)
+                if isinstance(pr, Raised):
+                    prior_failed.append(pr)
             with NoisePatch(mode, hot, combo) as p:
                 out = call(b.op.zero_mean_mvn_samples, k)
         return out, p, env.linalg_paths()
 
+    prior_failed = []
     out0, p0, paths = sample("record")
+    if prior:
+        feat["prior"] = prior
+        if prior_failed:
+            return result(OOD, feat=feat, keys=[key], msg=f"root_decomposition(method={prior!r}) is not available here: {prior_failed[0].msg}")
     if isinstance(out0, Raised):
         if is_explicit_unsupported(out0, r"zero_mean_mvn_samples|root_decomposition|_root_decomposition|cholesky|_cholesky"):
             return result(UNSUP, exc=out0.type, msg=out0.msg, feat=feat, keys=[key])
